@@ -34,7 +34,7 @@ def rec_case(seed):
     nonfin = [[r, c] for r in range(h) for c in range(w) if rng.random() < 0.03] if rng.random() < 0.4 else []
     cov = [[r, c] for r in range(h) for c in range(min(w, rng.randint(1, 2)))] if rng.random() < 0.3 else []
     p = rng.choice([0, 10, 50, 90, 100])
-    estimator = rng.choice(['median', 'mean', 'mmm', 'sextractor', 'mode'])
+    estimator = rng.choice(['median', 'mean', 'mmm', 'sextractor', 'mode', 'biweight'])     # biweight: relations only (not re-derived)
     rmsest = rng.choice(['std', 'std', 'madstd'])
     zoom = rng.random() < 0.6
     sigma, maxiters = 3, 10
@@ -53,21 +53,24 @@ def rec_case(seed):
         for r, c in cov:
             cm[r, c] = True
     est = {'median': B.MedianBackground, 'mean': B.MeanBackground, 'mmm': B.MMMBackground, 'sextractor': B.SExtractorBackground,
-           'mode': B.ModeEstimatorBackground}[estimator]()
-    rest = B.StdBackgroundRMS() if rmsest == 'std' else B.MADStdBackgroundRMS()
+           'mode': B.ModeEstimatorBackground, 'biweight': B.BiweightLocationBackground}[estimator]()
+    if estimator == 'biweight':
+        rmsest = 'biweight'
+    rest = {'std': B.StdBackgroundRMS, 'madstd': B.MADStdBackgroundRMS, 'biweight': B.BiweightScaleBackgroundRMS}[rmsest]()
+    noclip = rng.random() < 0.2            # sigma_clip=None: every unmasked finite pixel of a box is used
     interp = B.BkgZoomInterpolator() if zoom else B.BkgIDWInterpolator()
     from astropy.stats import SigmaClip
 
     def run(dd, mm=m, fsize=1, fthr=None):
         return B.Background2D(dd, (by, bx), mask=mm, coverage_mask=cm, exclude_percentile=float(p), filter_size=fsize, filter_threshold=fthr,
-                              bkg_estimator=est, bkgrms_estimator=rest, sigma_clip=SigmaClip(sigma=float(sigma), maxiters=maxiters), interpolator=interp, fill_value=fill)
+                              bkg_estimator=est, bkgrms_estimator=rest, sigma_clip=None if noclip else SigmaClip(sigma=float(sigma), maxiters=maxiters), interpolator=interp, fill_value=fill)
     # median filter of the meshes (whole mesh, or only the boxes above filter_threshold)
     fsize = rng.choice([(3, 3), (1, 3), (3, 1), (5, 3), (3, 5)]) if rng.random() < 0.5 else None
     selective = rng.random() < 0.6
     fthr = base + rng.randint(0, 6) + 0.37
     bad = sorted({(r, c) for r, c in mask} | {(r, c) for r, c in nonfin} | {(r, c) for r, c in cov})
     rec = {'id': seed, 'kind': 'mesh', 'data': data, 'bad': [list(x) for x in bad], 'coverage': cov, 'box': [by, bx], 'p': p, 'estimator': estimator, 'rmsest': rmsest,
-           'sigma': sigma, 'maxiters': maxiters, 'zoom': zoom, 'fill_k': int(round(fill * S)), 'raised': False,
+           'sigma': sigma, 'maxiters': 0 if noclip else maxiters, 'zoom': zoom, 'fill_k': int(round(fill * S)), 'raised': False,
            'mesh': [[0]], 'rmsmesh': [[0]], 'madmesh': [[0]], 'npix': [[0]], 'bkg': [[0]], 'rms': [[0]], 'map_finite': True}
     out = [rec]
     with warnings.catch_warnings():
@@ -123,8 +126,9 @@ def rec_case(seed):
             fillmask = okc
             pair('adding_constant_shifts_background_only', np.concatenate([np.asarray(bs.background)[fillmask], np.asarray(bs.background_rms)[fillmask]]),
                  np.concatenate([bkg[fillmask] + sh, rms[fillmask]]), tol=3)
-            bk = run(d * 3.0)
-            pair('scaling_scales_background_and_rms', np.concatenate([np.asarray(bk.background)[fillmask], np.asarray(bk.background_rms)[fillmask]]),
+            kf = rng.choice([3.0, 3.0, 2.0 ** -33, 2.0 ** 20])          # also tiny and huge absolute values (powers of two: exact scaling)
+            bk = run(d * kf)
+            pair('scaling_scales_background_and_rms', np.concatenate([np.asarray(bk.background)[fillmask], np.asarray(bk.background_rms)[fillmask]]) * (3.0 / kf),
                  np.concatenate([bkg[fillmask] * 3.0, rms[fillmask] * 3.0]), tol=6)
             if seed % 5 == 0:
                 # a large box of a constant single-precision image whose value is not exactly summable
